@@ -889,10 +889,12 @@ CHECKS = {
         "C14",
         "c14",
         RULE_PROGRAMS + "pattern alphabets mix BMP and supplementary characters (Deseret, Adlam, emoji, U+10FFFF); each case compares find_from_utf16 on the UTF-16 encoding (offsets translated back through an independent code point map) and, on BMP-only text, find_from_ucs2, with find_from of the same binary. Second part: seeded random u16 slices of length 0..8 over 12 units (lone, reversed and trailing surrogates) x 24 patterns x every start 0..=len+1 and usize::MAX x both entry points: no panic, fuel not exhausted, ranges inside the slice and increasing. non-trivial iff a match was found / the slice has a lone surrogate.",
-        ["built with the utf16 feature (the UTF-8 entry points of that build are the comparison side)"],
+        ["built with the utf16 feature (the UTF-8 entry points of that build are the comparison side)",
+         "second stage (counters c14u16.*): the robustness clause on a program stream -- fixed corpus + seeded structured patterns x u16 texts made of the pattern's characters, their surrogate halves and unrelated surrogates x every start offset incl. those between the halves of a pair x both entry points: no panic (debug assertions of the crate on), ranges inside the slice and increasing, termination within 2x10^7 steps whenever the reference search over the decoded text needs fewer than 2x10^4"],
         variant="utf16",
-        required=["pairs.utf16", "pairs.ucs2", "pairs_with_supplementary_text", "arbitrary_u16_cases_with_lone_surrogate"],
-        extra=lambda m: dict(pairs=group_counters(m.counters, "pairs"), arbitrary_u16_cases_with_lone_surrogate=m.c("arbitrary_u16_cases_with_lone_surrogate")),
+        required=["pairs.utf16", "pairs.ucs2", "pairs_with_supplementary_text", "arbitrary_u16_cases_with_lone_surrogate", "c14u16.robust_cases_with_start_inside_a_pair", "c14u16.cases_with_lone_surrogate"],
+        extra_stages=[("utf16", "c14u16")],
+        extra=lambda m: dict(pairs=group_counters(m.counters, "pairs"), arbitrary_u16_cases_with_lone_surrogate=m.c("arbitrary_u16_cases_with_lone_surrogate"), robust_cases_with_start_inside_a_pair=m.c("c14u16.robust_cases_with_start_inside_a_pair")),
     ),
     "C20": simple_check(
         "C20",
